@@ -7,7 +7,9 @@ Differential driver for the `RemoteException` model (`drv remoteexc`).
     case <id> <tree>
     okq <id>                                        → `okq <id> <0|1>`           (`Exc.ok`)
     hop <id> <k> proc=<toks> rr=<toks|-> arg=<d|s:<toks>|t:<toks>>
-                                                    → `out <id> <k> <tree>` | `out <id> <k> none`
+                                                    → `wrp <id> <k> t=<toks> <tree>` | `wrp <id> <k> none`
+                                                      (the constructor alone: `wrapWith` = `(self.exc, self.tb)`)
+                                                      `out <id> <k> <tree>` | `out <id> <k> none`
 
 tree  ::= E <cls> a:<nats> l:<toks|-> k:n | k:r:<toks> | k:o:<toks>  entry* .
 entry ::= V <nat> | X tree | W w:<toks> tree
@@ -115,9 +117,13 @@ partial def loop (h : IO.FS.Stream) (st : St) : IO Unit := do
     match st.cur, parseArg (Drv.getS kv "arg" "d") with
     | some e, some ar =>
       let hp : Hop := ⟨Drv.getL kv "proc", parseOptToks (Drv.getS kv "rr" "-")⟩
+      let pre := match hp.reraise with | none => e | some own => e.raised own
+      match wrapWith st.F hp.proc ar pre with
+      | some (w, t) => IO.println s!"wrp {id} {k} t={showToks t} {showExc w}"
+      | none => IO.println s!"wrp {id} {k} none"
       let r := match ar with
         | .dflt => step st.F e hp
-        | ar => hopWith st.F hp.proc ar (match hp.reraise with | none => e | some own => e.raised own)
+        | ar => hopWith st.F hp.proc ar pre
       match r with
       | some e' =>
         IO.println s!"out {id} {k} {showExc e'}"
